@@ -18,6 +18,22 @@ def run(chk):
         progs, sums, rej = vlib.toy_traces(chk, curve, kind, n, vlib.flags(V=1), "verdict", seed_off=i)
         for s in sums:
             outcomes[(curve, s["vres"][:20] or s["pres"][:20])] += 1
+    # the combiner attack: the verifier is first asked to check the unaltered proof; with the weight r it derived there, t_x_blinding is shifted
+    # by d and e_blinding by -r*d - the pair of changes that leaves the combined sum untouched under THAT r. The specified verifier derives r
+    # after both scalars and so derives another one; the separate relations (b), (c) reject the altered proof whatever r is. Here a vanishing
+    # weighted sum is construction, not luck: the one-in-P coincidence is tolerated by counting (at most one per workload), not by rule.
+    for j, (curve, n) in enumerate([("toy31723", 200 if q else 4000), ("toy79", 150 if q else 3000)]):
+        name = "rcraft_%s" % curve
+        progs = vlib.genprogs(chk, chk.seed + 90 + j, n, vlib.TOY_P[curve], "rcraft", name)
+        tp, sums = vlib.record(chk, curve, progs, name)
+        acc, rej = vlib.validate_traces(chk, tp, curve, flags=dict(vlib.flags(V=1), NO_LUCK="1"), max_rejects=8)
+        for p_ in progs:
+            chk.count_case([curve, p_["p"], p_.get("tamper")])
+        budget = len(progs) * 4 // vlib.TOY_P[curve] + 2
+        if len(rej) <= budget:
+            chk.cov["combiner_coincidences_tolerated"] = chk.cov.get("combiner_coincidences_tolerated", 0) + len(rej)
+        else:
+            vlib.report_rejects(chk, rej, "combiner-attack")
     gad = [dict(p) for p, holds in gadgets.workload(chk.seed, q)]
     for curve in ("toy79", "toy31723"):
         vlib.toy_traces(chk, curve, "gadgets", 0, vlib.flags(V=1), "verdict-gadget", progs=[dict(p) for p in gad], name="gad" + curve)
@@ -27,7 +43,7 @@ def run(chk):
              "prover and verifier on toy7/toy79/toy31723; for every verify call TLC recomputes, from the recorded statement, proof and challenges, "
              "(a) the identity validations in order, the shape guards, (b) Tres, (c) Ires with generators folded round by round, and the combined "
              "residual, and demands: code verdict = specification verdict, mega = Ires + r*Tres, and verdict = (Ires = 0 and Tres = 0) unless "
-             "Tres != 0 and r = -Ires/Tres. Small groups make weak checks visible: a verifier that drops or mis-weights a term differs from the "
+             "Tres != 0 and r = -Ires/Tres. A further workload alters t_x_blinding and e_blinding together using the weight r the verifier derived for the unaltered proof (the pair of changes that cancels under that r): there the coincidence is not excused. Small groups make weak checks visible: a verifier that drops or mis-weights a term differs from the "
              "specification on a few percent of toy79 proofs. distinct = distinct (curve, program, tamper) with >= 1 call",
         assumptions=["challenge scalars are taken as the code derived them (hook H3), so the derivation itself is not part of this property",
                      "runs with a zero challenge are validated up to that event"])
